@@ -1,6 +1,7 @@
 package main
 
 import (
+	"sort"
 	"fmt"
 	"go/constant"
 	"go/token"
@@ -311,6 +312,10 @@ func runC26(c *Ctx) {
 	}
 	// ---- R3: conf.Cmd set on every path before the reader gets conf
 	checkCmdSetBeforeRead(c)
+	c.R.MinInst["C26.R5"] = 2
+	checkEmptyOwnerCandidate(c, "C26.R5")
+	c.R.MinInst["C26.R4"] = 40
+	checkDispatchedModeIdentity(c)
 }
 
 func derivesFromParam(v ssa.Value, prm *ssa.Parameter) bool {
@@ -409,5 +414,294 @@ func checkCmdSetBeforeRead(c *Ctx) {
 				r.Bad("C26.R3", fid, construct, p.Pos(call.Pos()), "conf.Cmd = model."+mode+" is not executed on every path before the document is read with this configuration: with a caller-supplied configuration the permission check (and owner-password requirement) would run for a stale command mode")
 			}
 		})
+	}
+}
+
+func init() {
+	extraDebug["c26modes"] = func(p *Program) {
+		for _, fn := range p.Funcs {
+			fid := FuncID(fn)
+			if !strings.HasPrefix(fid, "pkg/api.") || fn.Parent() != nil {
+				continue
+			}
+			var modes []string
+			eachInstr(fn, func(_ *ssa.BasicBlock, _ int, i ssa.Instruction) {
+				st, ok := i.(*ssa.Store)
+				if !ok {
+					return
+				}
+				fa, ok := st.Addr.(*ssa.FieldAddr)
+				if !ok {
+					return
+				}
+				f := structField(fa.X.Type(), fa.Field)
+				if f == nil || f.Name() != "Cmd" || typeNameOf(fa.X.Type()) != "Configuration" {
+					return
+				}
+				if cst, ok := st.Val.(*ssa.Const); ok {
+					if n := commandModeName(p, cst); n != "" {
+						modes = append(modes, n)
+					}
+				}
+			})
+			if len(modes) > 0 {
+				fmt.Printf("%-50s %s\n", fid, strings.Join(modes, ","))
+			}
+		}
+	}
+}
+
+// ---------------- C26.R4 (round 2 of seeding): the mode an operation is checked under is the mode it was dispatched for ----------------
+//
+// cli.Dispatch sends command mode M to a handler; the handler calls pkg/api functions which (re)assign conf.Cmd before the
+// document is read, and the permission table is indexed by conf.Cmd. Every constant mode stored into a Configuration by the
+// pkg/api functions reachable from the handler of M must be one of the modes that handler is dispatched for: reading the
+// document of a TRIM through a helper that stores SPLIT makes the permission check run for the wrong command.
+// permRows extracts the permission table (mode -> required {extract, modify} bits) from the initialisation of pkg/pdfcpu.perm.
+func permRows(p *Program) map[string][2]int64 {
+	out := map[string][2]int64{}
+	for _, fn := range p.Funcs {
+		if !strings.HasPrefix(FuncID(fn), "pkg/pdfcpu.init") {
+			continue
+		}
+		eachInstr(fn, func(_ *ssa.BasicBlock, _ int, i ssa.Instruction) {
+			mu, ok := i.(*ssa.MapUpdate)
+			if !ok {
+				return
+			}
+			cst, ok := mu.Key.(*ssa.Const)
+			if !ok {
+				return
+			}
+			mode := commandModeName(p, cst)
+			if mode == "" {
+				return
+			}
+			ld, ok := mu.Value.(*ssa.UnOp)
+			if !ok {
+				return
+			}
+			al, ok := ld.X.(*ssa.Alloc)
+			if !ok {
+				return
+			}
+			var row [2]int64
+			n := 0
+			for _, rf := range *al.Referrers() {
+				fa, ok := rf.(*ssa.FieldAddr)
+				if !ok || fa.Field > 1 {
+					continue
+				}
+				for _, r2 := range *fa.Referrers() {
+					if st, ok := r2.(*ssa.Store); ok {
+						if k, ok := constInt(st.Val); ok {
+							row[fa.Field] = k
+							n++
+						}
+					}
+				}
+			}
+			if n > 0 || true {
+				out[mode] = row
+			}
+		})
+	}
+	return out
+}
+
+// c26ModeAliases: handler -> modes it may legitimately read a document under besides its own, with the reason.
+var c26ModeAliases = map[string]map[string]string{
+	"pkg/cli.MultiFillFormFields": {
+		"MERGECREATE": "merge mode merges pdfcpu's own intermediate outputs (written a moment ago without encryption), not the user's document",
+		"MERGEAPPEND": "see MERGECREATE (mergeConfiguration stores one of the two)",
+	},
+}
+
+func checkDispatchedModeIdentity(c *Ctx) {
+	p, r := c.P, c.R
+	cg := c.CG()
+	// 1. handler -> modes, from the dispatch functions of pkg/cli
+	handlerModes := map[*ssa.Function]map[string]bool{}
+	for _, fn := range p.Funcs {
+		fid := FuncID(fn)
+		if !strings.HasPrefix(fid, "pkg/cli.dispatch") || fn.Parent() != nil {
+			continue
+		}
+		eachInstr(fn, func(_ *ssa.BasicBlock, _ int, i ssa.Instruction) {
+			b, ok := i.(*ssa.BinOp)
+			if !ok || b.Op != token.EQL {
+				return
+			}
+			cst, ok := b.Y.(*ssa.Const)
+			if !ok {
+				return
+			}
+			mode := commandModeName(p, cst)
+			if mode == "" {
+				return
+			}
+			for _, e := range condEdges(b, true) {
+				start := e.From.Succs[e.Succ]
+				blocks := reachableBlocks(start)
+				blocks[start] = true
+				for blk := range blocks {
+					for _, in := range blk.Instrs {
+						call, ok := in.(*ssa.Call)
+						if !ok {
+							continue
+						}
+						h := staticCallee(call)
+						if h == nil || !strings.HasPrefix(FuncID(h), "pkg/cli.") {
+							continue
+						}
+						if handlerModes[h] == nil {
+							handlerModes[h] = map[string]bool{}
+						}
+						handlerModes[h][mode] = true
+					}
+				}
+			}
+		})
+	}
+	// handlers registered directly in the dispatch table (mode -> handler)
+	for _, fn := range p.Funcs {
+		if !strings.HasPrefix(FuncID(fn), "pkg/cli.init") {
+			continue
+		}
+		eachInstr(fn, func(_ *ssa.BasicBlock, _ int, i ssa.Instruction) {
+			mu, ok := i.(*ssa.MapUpdate)
+			if !ok {
+				return
+			}
+			cst, ok := mu.Key.(*ssa.Const)
+			if !ok {
+				return
+			}
+			mode := commandModeName(p, cst)
+			h := funcValue(mu.Value)
+			if mode == "" || h == nil || strings.HasPrefix(FuncID(h), "pkg/cli.dispatch") {
+				return
+			}
+			if handlerModes[h] == nil {
+				handlerModes[h] = map[string]bool{}
+			}
+			handlerModes[h][mode] = true
+		})
+	}
+	if len(handlerModes) < 40 {
+		r.Bad("C26.R4", "pkg/cli.Dispatch", "anchor", "", fmt.Sprintf("UNRESOLVED-ANCHOR: only %d command handlers recovered from the dispatch switches", len(handlerModes)))
+		return
+	}
+	// 2. constant mode stores per pkg/api function
+	stores := map[*ssa.Function]map[string]string{}
+	for _, fn := range p.Funcs {
+		if !strings.HasPrefix(FuncID(fn), "pkg/api.") {
+			continue
+		}
+		fn := fn
+		eachInstr(fn, func(_ *ssa.BasicBlock, _ int, i ssa.Instruction) {
+			st, ok := i.(*ssa.Store)
+			if !ok {
+				return
+			}
+			fa, ok := st.Addr.(*ssa.FieldAddr)
+			if !ok {
+				return
+			}
+			f := structField(fa.X.Type(), fa.Field)
+			if f == nil || f.Name() != "Cmd" || typeNameOf(fa.X.Type()) != "Configuration" {
+				return
+			}
+			if cst, ok := st.Val.(*ssa.Const); ok {
+				if n := commandModeName(p, cst); n != "" {
+					if stores[fn] == nil {
+						stores[fn] = map[string]string{}
+					}
+					stores[fn][n] = p.Pos(st.Pos())
+				}
+			}
+		})
+	}
+	rows := permRows(p)
+	if len(rows) < 50 {
+		r.Bad("C26.R4", "pkg/pdfcpu.perm", "anchor", "", fmt.Sprintf("UNRESOLVED-ANCHOR: only %d rows of the permission table extracted", len(rows)))
+	}
+	// 3. per handler: api functions reachable through pkg/cli and pkg/api code
+	var handlers []*ssa.Function
+	for h := range handlerModes {
+		handlers = append(handlers, h)
+	}
+	sort.Slice(handlers, func(i, j int) bool { return FuncID(handlers[i]) < FuncID(handlers[j]) })
+	for _, h := range handlers {
+		modes := handlerModes[h]
+		var ml []string
+		for m := range modes {
+			ml = append(ml, m)
+		}
+		sort.Strings(ml)
+		seen := map[*ssa.Function]bool{}
+		stack := []*ssa.Function{h}
+		var bad []string
+		nStores := 0
+		for len(stack) > 0 {
+			f := stack[len(stack)-1]
+			stack = stack[:len(stack)-1]
+			if seen[f] {
+				continue
+			}
+			seen[f] = true
+			for m, pos := range stores[f] {
+				nStores++
+				// reading under another mode of the same family is accepted when that mode's row demands at least what
+				// every dispatched mode demands (never weaker)
+				asStrict := len(rows) > 0
+				for own := range modes {
+					ro, ok1 := rows[own]
+					rm, ok2 := rows[m]
+					if !ok1 || !ok2 || rm[0] < ro[0] || rm[1] < ro[1] {
+						asStrict = false
+					}
+				}
+				if _, alias := c26ModeAliases[FuncID(h)][m]; !modes[m] && !alias && !asStrict {
+					bad = append(bad, fmt.Sprintf("%s stores %s (%s)", FuncID(f), m, pos))
+				}
+			}
+			for _, g := range cg.Out[f] {
+				gid := FuncID(g)
+				if strings.HasPrefix(gid, "pkg/cli.") || strings.HasPrefix(gid, "pkg/api.") {
+					stack = append(stack, g)
+				}
+			}
+		}
+		sort.Strings(bad)
+		pos := p.Pos(h.Pos())
+		if len(bad) == 0 {
+			r.OK("C26.R4", FuncID(h), "modes "+strings.Join(ml, ","), pos, fmt.Sprintf("%d constant conf.Cmd stores in the pkg/api code reachable from this handler, all within the modes it is dispatched for", nStores), nStores > 0)
+		} else {
+			r.Bad("C26.R4", FuncID(h), "modes "+strings.Join(ml, ","), pos, "dispatched for "+strings.Join(ml, ",")+" but the document is read under another command mode: "+strings.Join(bad, "; ")+" — the permission table is consulted for the wrong command")
+		}
+	}
+}
+
+func init() {
+	extraDebug["c26dispatch"] = func(p *Program) {
+		n := 0
+		for _, fn := range p.Funcs {
+			fid := FuncID(fn)
+			if !strings.HasPrefix(fid, "pkg/cli.dispatch") {
+				continue
+			}
+			n++
+			cmp := 0
+			eachInstr(fn, func(_ *ssa.BasicBlock, _ int, i ssa.Instruction) {
+				if b, ok := i.(*ssa.BinOp); ok && b.Op == token.EQL {
+					if cst, ok := b.Y.(*ssa.Const); ok {
+						cmp++
+						fmt.Println(fid, cst, commandModeName(p, cst), len(condEdges(b, true)))
+					}
+				}
+			})
+		}
+		fmt.Println("dispatch funcs", n)
 	}
 }
